@@ -1,7 +1,10 @@
 package simdrv
 
 import (
+	"encoding/json"
 	"fmt"
+	"os"
+	"runtime"
 	"sort"
 	"strings"
 
@@ -200,7 +203,22 @@ func (w *Worker) runC03(rc *simapi.RunConfig) *simapi.RunResult {
 	v := &rc.Variants[0]
 	// calibrate the serial step count for change points / budget
 	w.calibrate(rc, v, wl)
-	out := w.execCLI(rc.Args, rc.Visits, v, false)
+	dump := os.Getenv("GCSIM_DUMP_DECISIONS")
+	if dump != "" && simrt.DebugGID == nil {
+		simrt.DebugGID = func() int64 {
+			var buf [64]byte
+			n := runtime.Stack(buf[:], false)
+			var id int64
+			fmt.Sscanf(string(buf[:n]), "goroutine %d ", &id)
+			return id
+		}
+	}
+	out := w.execCLI(rc.Args, rc.Visits, v, dump != "")
+	if dump != "" {
+		if b, err := json.Marshal(out.Decisions); err == nil {
+			os.WriteFile(fmt.Sprintf("%s/dec-%d-%d.json", dump, os.Getpid(), rc.Index), b, 0o644)
+		}
+	}
 	if out.InitErr != "" {
 		res.Violations = append(res.Violations, simapi.Violation{Class: "init-error", Identity: "init-error", Detail: out.InitErr})
 		return res
